@@ -226,8 +226,8 @@ func (r *Runtime) builtin_newMap(args []Value, newTarget *Object) *Object {
 			} else {
 				iter.iterate(func(item Value) {
 					itemObj := r.toObject(item)
-					k := itemObj.self.getIdx(i0, nil)
-					v := itemObj.self.getIdx(i1, nil)
+					k := nilSafe(itemObj.self.getIdx(i0, nil))
+					v := nilSafe(itemObj.self.getIdx(i1, nil))
 					adderFn(FunctionCall{This: o, Arguments: []Value{k, v}})
 				})
 			}
